@@ -131,7 +131,8 @@ function getPrepareStackTrace (originalPrepareStackTrace) {
         }
         const { path, line, column } = getSourcePathAndLineFromSourceMaps(filename, originalLine, originalColumn)
         if (path !== filename || line !== originalLine || column !== originalColumn) {
-          return stackFrame.replace(`${filename}:${originalLine}:${originalColumn}`, `${path}:${line}:${column}`)
+          // a function replacer: the new position is data, `$&` or `$'` in a path must not be interpreted
+          return stackFrame.replace(`${filename}:${originalLine}:${originalColumn}`, () => `${path}:${line}:${column}`)
         }
         return stackFrame
       })
